@@ -78,6 +78,7 @@ class Rec:
         self.nviol = 0
         self.samples = []
         self.cap_hit = False
+        self.shard = None
         self.frontier = {}  # canonical state key -> shortest history reaching it (BFS rounds)
 
     def push(self, key, history):
@@ -113,6 +114,7 @@ class Rec:
             observed=jsonable(observed),
             cost=cost,
             note=note,
+            shard=jsonable(self.shard),
         )
         # keep at most MAXVIOL per (sub, cls) so that a flood of one class cannot hide another
         n_same = sum(1 for w in self.viol if w["sub"] == sub and w["cls"] == cls)
